@@ -1,0 +1,54 @@
+//go:build verif
+
+package symboldg
+
+import "github.com/gopher-fleece/gleece/v2/graphs"
+
+// VerifEdge is one entry of the edge index as stored (full, versioned keys of the first insertion).
+type VerifEdge struct {
+	From graphs.SymbolKey
+	To   graphs.SymbolKey
+	Kind SymbolEdgeKind
+}
+
+// VerifIndices is a read-only copy of the graph's internal indices, keyed by base ID, for the conformance harness.
+type VerifIndices struct {
+	Nodes   map[string]graphs.SymbolKey   // base ID -> key of the node held
+	Lookup  map[string]graphs.SymbolKey   // base ID -> lookup key
+	Edges   map[string][]VerifEdge        // from base ID -> edges
+	Deps    map[string][]graphs.SymbolKey // from base ID -> full 'to' keys
+	RevDeps map[string][]graphs.SymbolKey // to base ID -> full 'from' keys
+}
+
+// VerifIndices exposes the four redundant indices (build tag 'verif' only; never compiled into a release build).
+func (g *SymbolGraph) VerifIndices() VerifIndices {
+	out := VerifIndices{
+		Nodes:   map[string]graphs.SymbolKey{},
+		Lookup:  map[string]graphs.SymbolKey{},
+		Edges:   map[string][]VerifEdge{},
+		Deps:    map[string][]graphs.SymbolKey{},
+		RevDeps: map[string][]graphs.SymbolKey{},
+	}
+	for id, n := range g.nodes {
+		out.Nodes[id] = n.Id
+	}
+	for id, k := range g.lookupKeys {
+		out.Lookup[id] = k
+	}
+	for from, inner := range g.edges {
+		for _, d := range inner {
+			out.Edges[from] = append(out.Edges[from], VerifEdge{From: d.Edge.From, To: d.Edge.To, Kind: d.Edge.Kind})
+		}
+	}
+	for from, set := range g.deps {
+		for k := range set {
+			out.Deps[from] = append(out.Deps[from], k)
+		}
+	}
+	for to, set := range g.revDeps {
+		for k := range set {
+			out.RevDeps[to] = append(out.RevDeps[to], k)
+		}
+	}
+	return out
+}
